@@ -41,7 +41,11 @@ fn layout_from(v: &Value) -> ArcLayout {
 
 /// conforming image: exact extraction
 fn judge_ok(files: &[(String, Vec<u8>)], l: &ArcLayout, t: &mut Tally) -> Option<(String, String)> {
-    let img = ref_pack::build_arc(files, l, &ArcTweak::default());
+    judge_ok_tw(files, l, &ArcTweak::default(), t)
+}
+
+fn judge_ok_tw(files: &[(String, Vec<u8>)], l: &ArcLayout, tw: &ArcTweak, t: &mut Tally) -> Option<(String, String)> {
+    let img = ref_pack::build_arc(files, l, tw);
     t.calls += 1;
     match util::catch(|| arc::from_bytes(&img.bytes).map_err(|e| e.to_string())) {
         Err(p) => Some((format!("panic@{}", p.location), format!("from_bytes panicked on a conforming arc: {}", p.message))),
@@ -126,6 +130,65 @@ fn scale_sets() -> Vec<(String, Vec<(String, Vec<u8>)>)> {
     v
 }
 
+/// conforming variations the plain family does not contain: retail-style extra labels (a
+/// "Data" label on the body block, every record labelled with its file name), bodies shared by
+/// records with equal contents (also large ones), names from the tricky catalogue (a file
+/// called "Data" included), DENSE sweeps of file count / body length / name length
+fn variation_cases(tier: Tier) -> Vec<(String, Vec<(String, Vec<u8>)>, ArcLayout, ArcTweak)> {
+    let mut v = Vec::new();
+    let lay = |n: usize, padded: bool, rev: bool| {
+        let ident: Vec<usize> = (0..n).collect();
+        ArcLayout { padded, tables_first: !padded, record_order: if rev { ident.iter().rev().cloned().collect() } else { ident.clone() }, body_order: ident, info_before_count: rev }
+    };
+    let tweaks = |share: bool| -> Vec<ArcTweak> {
+        let mut t = Vec::new();
+        for label_records in 0..3u8 {
+            for data_label in [false, true] {
+                t.push(ArcTweak { label_records, data_label, share_equal_bodies: share, ..Default::default() });
+            }
+        }
+        t
+    };
+    let tricky = vcore::sjis::tricky_strings();
+    for (i, s) in tricky.iter().enumerate() {
+        let other = &tricky[(i + 1) % tricky.len()];
+        let mut files = vec![(s.clone(), body(0, 5)), (format!("{}.bin", s), body(1, 33))];
+        if other != s && *other != format!("{}.bin", s) {
+            files.push((other.clone(), body(2, 0)));
+        }
+        for (k, tw) in tweaks(false).into_iter().enumerate() {
+            if i % 6 == k || s == "Data" || s == "Count" || s == "Info" {
+                v.push((format!("tricky name #{} tweak {}", i, k), files.clone(), lay(files.len(), k % 2 == 0, i % 2 == 0), tw));
+            }
+        }
+    }
+    // shared bodies: 2..=4 names for one body of 0..=400 bytes (every length at the thorough tier)
+    let lens: Vec<usize> = tier.pick(vec![0, 1, 4, 26, 27, 36, 37, 74, 75, 100, 132, 133, 200, 300, 400, 4096, 70_000], (0..=400).chain([4096, 70_000]).collect());
+    for k in 2..=4usize {
+        for &len in &lens {
+            for padded in [true, false] {
+                let mut files: Vec<(String, Vec<u8>)> = (0..k).map(|i| (format!("same{}.bin", i), body(0, len))).collect();
+                files.push(("different.bin".into(), body(3, 7)));
+                v.push((format!("{} names sharing one {}-byte body", k, len), files.clone(), lay(k + 1, padded, false), ArcTweak { share_equal_bodies: true, ..Default::default() }));
+                v.push((format!("{} names sharing one {}-byte body, labelled records", k, len), files, lay(k + 1, padded, true), ArcTweak { share_equal_bodies: true, label_records: 1, data_label: true, ..Default::default() }));
+            }
+        }
+    }
+    let (counts, blen, nlen) = tier.pick((300usize, 200usize, 300usize), (1200, 700, 1200));
+    for n in 0..=counts {
+        v.push((format!("{} files", n), (0..n).map(|i| (format!("f{}", i), body(i % 5, (i * 7) % 6))).collect(), lay(n, n % 2 == 0, n % 3 == 0), ArcTweak { label_records: (n % 3) as u8, data_label: n % 2 == 1, ..Default::default() }));
+    }
+    for l in 0..=blen {
+        v.push((format!("bodies of {} and {} bytes", l, blen - l), vec![("a".to_string(), body(0, l)), ("b".to_string(), body(1, blen - l)), ("c".to_string(), body(2, 1))], lay(3, l % 2 == 0, false), ArcTweak::default()));
+    }
+    for l in 1..=nlen {
+        let n1: String = "abcdefghij".chars().cycle().take(l).collect();
+        let n2: String = "名前ｶﾅ".chars().cycle().take(l / 2 + 1).collect();
+        v.push((format!("names of {} bytes", l), vec![(n1, body(0, 3)), (n2, body(1, 40))], lay(2, l % 2 == 0, true), ArcTweak { label_records: (l % 3) as u8, ..Default::default() }));
+    }
+    v
+}
+
 fn explore(ctx: &Ctx) -> Outcome {
     let sets = file_sets(ctx.tier);
     let total = sets
@@ -177,6 +240,22 @@ fn explore(ctx: &Ctx) -> Outcome {
             }
         }
     }
+    // conforming variations
+    {
+        let vc = variation_cases(ctx.tier);
+        let t = vc
+            .par_iter()
+            .fold(Tally::new, |mut t, (tag, files, l, tw)| {
+                t.cases += 1;
+                t.nontrivial += 1;
+                if let Some((sig, summary)) = judge_ok_tw(files, l, tw, &mut t) {
+                    t.violate(format!("variation:{}", sig), format!("[{}; {:?}] {}", tag, tw, summary.chars().take(400).collect::<String>()), json!({"variation": tag, "tier": ctx.tier.name()}));
+                }
+                t
+            })
+            .reduce(Tally::new, Tally::merge);
+        total.absorb(t);
+    }
     // scale: many records, large bodies
     for (tag, files) in scale_sets() {
         for padded in [true, false] {
@@ -191,7 +270,7 @@ fn explore(ctx: &Ctx) -> Outcome {
     }
     total.sample(json!({"lens": [1, 5], "layout": layout_json(&ref_pack::arc_layouts(2)[3])}));
     let mut o = total.into_outcome(
-        "every arc image the reference builder writes over: 0..=3 files with lengths from {0,1,3,4,5,32} (all combinations), with/without the 0x60 zero header, Count/Info tables before or after the bodies and in either order, ALL record orders × ALL body placements; oracle: one entry per record keyed by name with exactly the recorded bytes. Error family per image: no Count label, no Info label, a record without a name string, size/offset pushed 1 and 4 bytes past the data region, 0xFFFFFFFF size, offsets that wrap a 32-bit sum with 0x60 ⇒ Err, in both arithmetic builds. non-trivial = image with ≥ 1 file or an error case",
+        "every arc image the reference builder writes over: 0..=3 files with lengths from {0,1,3,4,5,32} (all combinations), with/without the 0x60 zero header, Count/Info tables before or after the bodies and in either order, ALL record orders × ALL body placements; oracle: one entry per record keyed by name with exactly the recorded bytes. Error family per image: no Count label, no Info label, a record without a name string, size/offset pushed 1 and 4 bytes past the data region, 0xFFFFFFFF size, offsets that wrap a 32-bit sum with 0x60 ⇒ Err, in both arithmetic builds. Conforming variations: retail-style extra labels (a Data label on the body block, every record labelled with its file name, before or after Info), records with equal contents sharing one stored body (2..=4 names, bodies up to 70 000 bytes), names from the shared tricky-string catalogue (files called Data / Count / Info included), dense sweeps of file count, body length and name length. non-trivial = image with ≥ 1 file or an error case",
         true,
         vec![("file_sets", json!(sets.len()))],
     );
@@ -208,6 +287,11 @@ fn replay(_ctx: &Ctx, case: &Value) -> Vec<Violation> {
         let _ = util::catch(|| arc::from_bytes(&img.bytes[..(cut as usize).min(img.bytes.len())]).map(|m| m.len()).map_err(|e| e.to_string()));
         let mut t = Tally::new();
         return judge_ok(&files, &l, &mut t).map(|(sig, summary)| vec![Violation { sig: format!("after-failed-parse:{}", sig), summary, case: case.clone() }]).unwrap_or_default();
+    }
+    if let Some(tag) = case["variation"].as_str() {
+        let tier = if case["tier"] == "thorough" { Tier::Thorough } else { Tier::Quick };
+        let mut t = Tally::new();
+        return variation_cases(tier).into_iter().filter(|(t2, ..)| t2 == tag).filter_map(|(_, files, l, tw)| judge_ok_tw(&files, &l, &tw, &mut t)).map(|(sig, summary)| Violation { sig: format!("variation:{}", sig), summary, case: case.clone() }).collect();
     }
     if let Some(tag) = case["scale"].as_str() {
         let padded = case["padded"].as_bool().unwrap_or(true);
